@@ -114,6 +114,9 @@ func replayNative(rf *replayFile, path string, extra map[string]string) (fails [
 		if rel == "root" {
 			rp = "."
 		}
+		if droppedHarnessFiles[filepath.Join(repoDir, rp, filepath.Base(p))] {
+			return nil // does not compile against the current tree
+		}
 		replace[filepath.Join(repoDir, rp, filepath.Base(p))] = p
 		apiVirt := filepath.Join(repoDir, rp, "zz_verif_api.go")
 		if _, ok := replace[apiVirt]; !ok {
